@@ -99,20 +99,21 @@ pub fn menu(s: &Structure) -> Vec<Op> {
     v.push(Op::Submit { sender: P::U(1) });
     v.push(Op::Submit { sender: P::Contract });
     let nb = s.batches.len() as u64;
-    let mut ids: Vec<u64> = (1..=nb).collect();
-    ids.push(99);
+    let base = s.id_base;
+    let mut ids: Vec<u64> = (base + 1..=base + nb).collect();
+    ids.push(base.saturating_add(99));
     for id in &ids {
         for u in 0..3 {
             v.push(Op::Withdraw { sender: P::U(u), batch: *id });
         }
         v.push(Op::ReceiveUnstaked { sender: P::HookStaker, batch: *id, funds: Funds::Native });
     }
-    v.push(Op::Withdraw { sender: P::Admin, batch: 1 });
-    v.push(Op::ReceiveUnstaked { sender: P::HookCollector, batch: 1, funds: Funds::Native });
-    v.push(Op::ReceiveUnstaked { sender: P::U(0), batch: 1, funds: Funds::Native });
-    v.push(Op::ReceiveUnstaked { sender: P::Admin, batch: 1, funds: Funds::Native });
-    v.push(Op::ReceiveUnstaked { sender: P::HookStaker, batch: 1, funds: Funds::Lst });
-    v.push(Op::ReceiveUnstaked { sender: P::HookStaker, batch: 1, funds: Funds::None });
+    v.push(Op::Withdraw { sender: P::Admin, batch: base + 1 });
+    v.push(Op::ReceiveUnstaked { sender: P::HookCollector, batch: base + 1, funds: Funds::Native });
+    v.push(Op::ReceiveUnstaked { sender: P::U(0), batch: base + 1, funds: Funds::Native });
+    v.push(Op::ReceiveUnstaked { sender: P::Admin, batch: base + 1, funds: Funds::Native });
+    v.push(Op::ReceiveUnstaked { sender: P::HookStaker, batch: base + 1, funds: Funds::Lst });
+    v.push(Op::ReceiveUnstaked { sender: P::HookStaker, batch: base + 1, funds: Funds::None });
     v.push(Op::Rewards { sender: P::HookCollector, funds: Funds::Native, faults: vec![] });
     v.push(Op::Rewards { sender: P::HookCollector, funds: Funds::Native, faults: vec![1] });
     v.push(Op::Rewards { sender: P::HookCollector, funds: Funds::Native, faults: vec![2] });
